@@ -251,40 +251,7 @@ func TestC13(t *testing.T) {
 			failS = hx(uint64(fail))
 		}
 		obs := guard(func() string {
-			cur := codec.NewDecodingReader(&schedReader{data: append([]byte{}, data...), chunks: append([]int{}, chunks...), eofWithData: eof, failAfter: fail}, uint64(scope))
-			var stack []*codec.DecodingReader
-			var parts []string
-			for _, q := range script {
-				switch q[0] {
-				case 's':
-					c, _ := strconv.ParseUint(q[1:], 16, 64)
-					sub, err := cur.SubScope(c)
-					if err != nil {
-						return strings.Join(append(parts, "ERR"), ",")
-					}
-					stack = append(stack, cur)
-					cur = sub
-					parts = append(parts, "sub")
-				case 'u':
-					cur = stack[len(stack)-1]
-					stack = stack[:len(stack)-1]
-					parts = append(parts, "up")
-				case 'U':
-					child := cur
-					cur = stack[len(stack)-1]
-					stack = stack[:len(stack)-1]
-					cur.UpdateIndexFromScoped(child)
-					parts = append(parts, "up"+hx(cur.Index()))
-				default:
-					c, _ := strconv.ParseUint(q[1:], 16, 64)
-					p := make([]byte, c)
-					if _, err := cur.Read(p); err != nil {
-						return strings.Join(append(parts, "ERR"), ",")
-					}
-					parts = append(parts, hexBytes(p))
-				}
-			}
-			return strings.Join(parts, ",")
+			return runReaderScript(codec.NewDecodingReader(&schedReader{data: append([]byte{}, data...), chunks: append([]int{}, chunks...), eofWithData: eof, failAfter: fail}, uint64(scope)), script)
 		})
 		out.emit("primsub", "c13pc", []string{hexBytes(data), intsCSV(chunks), b01(eof), failS, hx(uint64(scope)), strings.Join(script, ",")}, obs)
 	}
@@ -297,34 +264,7 @@ func TestC13(t *testing.T) {
 		}
 		runScript := func(script []string) string {
 			return guard(func() string {
-				cur := codec.NewDecodingReader(&schedReader{data: append([]byte{}, data...), chunks: []int{3, 1, 2}, failAfter: -1}, uint64(len(data)))
-				var stack []*codec.DecodingReader
-				var parts []string
-				for _, q := range script {
-					switch q[0] {
-					case 's':
-						c, _ := strconv.ParseUint(q[1:], 16, 64)
-						sub, err := cur.SubScope(c)
-						if err != nil {
-							return strings.Join(append(parts, "ERR"), ",")
-						}
-						stack = append(stack, cur)
-						cur = sub
-						parts = append(parts, "sub")
-					case 'u':
-						cur = stack[len(stack)-1]
-						stack = stack[:len(stack)-1]
-						parts = append(parts, "up")
-					default:
-						c, _ := strconv.ParseUint(q[1:], 16, 64)
-						p := make([]byte, c)
-						if _, err := cur.Read(p); err != nil {
-							return strings.Join(append(parts, "ERR"), ",")
-						}
-						parts = append(parts, hexBytes(p))
-					}
-				}
-				return strings.Join(parts, ",")
+				return runReaderScript(codec.NewDecodingReader(&schedReader{data: append([]byte{}, data...), chunks: []int{3, 1, 2}, failAfter: -1}, uint64(len(data))), script)
 			})
 		}
 		for p := 3; p <= 7; p++ {
@@ -340,6 +280,51 @@ func TestC13(t *testing.T) {
 				}
 			}
 		}
+	}
+	// several sub-scopes of one parent open at the same time, used alternately (w<id> goes on
+	// with a reader opened earlier): each keeps its own scope and index
+	for k := 0; k < n*6; k++ {
+		data := make([]byte, 8+g.r.Intn(40))
+		g.r.Read(data)
+		type rd struct{ parent, rem int }
+		rds := []rd{{-1, len(data)}}
+		cur := 0
+		var script []string
+		for j := 3 + g.r.Intn(10); j > 0; j-- {
+			switch c := g.r.Intn(10); {
+			case c < 3:
+				cnt := g.r.Intn(rds[cur].rem + 1)
+				if g.r.Intn(12) == 0 {
+					cnt = rds[cur].rem + 1 + g.r.Intn(2)
+				}
+				script = append(script, "s"+hx(uint64(cnt)))
+				rds = append(rds, rd{cur, cnt})
+				cur = len(rds) - 1
+			case c < 6 && len(rds) > 1:
+				cur = g.r.Intn(len(rds))
+				script = append(script, "w"+hx(uint64(cur)))
+			default:
+				q := 0
+				if rds[cur].rem > 0 {
+					q = g.r.Intn(rds[cur].rem + 1)
+					if q > 6 {
+						q = g.r.Intn(7)
+					}
+				}
+				if g.r.Intn(10) == 0 {
+					q = rds[cur].rem + 1
+				}
+				script = append(script, "r"+hx(uint64(q)))
+				if q <= rds[cur].rem {
+					rds[cur].rem -= q
+				}
+			}
+		}
+		chunks := []int{1 + g.r.Intn(5), 1 + g.r.Intn(5), 1 + g.r.Intn(5)}
+		obs := guard(func() string {
+			return runReaderScript(codec.NewDecodingReader(&schedReader{data: append([]byte{}, data...), chunks: append([]int{}, chunks...), failAfter: -1}, uint64(len(data))), script)
+		})
+		out.emit("primsw", "c13pc", []string{hexBytes(data), intsCSV(chunks), "0", "-", hx(uint64(len(data))), strings.Join(script, ",")}, obs)
 	}
 	// Read and Skip sequences on a plain byte reader
 	for k := 0; k < n*4; k++ {
@@ -469,6 +454,18 @@ func TestC13(t *testing.T) {
 					return "OK " + hexBytes(d2)
 				})
 			}
+			// the stream goes on behind the value (the next record of a file or connection): a
+			// decode takes exactly its scope out of the caller's reader, never more
+			for _, c := range []int{1, 5, len(data) + 40} {
+				trail := bytes.Repeat([]byte{0x5c}, 64)
+				r := &schedReader{data: append(append([]byte{}, data...), trail...), chunks: repeatInt(c, len(data)+64), failAfter: -1}
+				res := decode(r)
+				obs := "ERR"
+				if strings.HasPrefix(res, "OK") {
+					obs = hx(uint64(len(data) + 64 - len(r.data)))
+				}
+				out.emit("used-"+kind, "c13u", []string{kind, ty.Sexp(), hexBytes(data)}, obs)
+			}
 			// delivery schedules: every legal chunking delivers the same value
 			for _, c := range []int{1, 2, 3, 7, (len(data) + 1) / 2, len(data)} {
 				for _, eof := range []bool{false, true} {
@@ -574,4 +571,48 @@ func TestC13(t *testing.T) {
 			}
 		}
 	}
+}
+
+// runReaderScript interprets s<count> (SubScope of the current reader, which becomes current),
+// u (back to the parent), U (back to the parent after UpdateIndexFromScoped), w<id> (go on with
+// the reader opened as number id; 0 is the top) and r<k> (Read k bytes through the current one).
+func runReaderScript(top *codec.DecodingReader, script []string) string {
+	readers := []*codec.DecodingReader{top}
+	parents := []int{-1}
+	cur := 0
+	var parts []string
+	for _, q := range script {
+		switch q[0] {
+		case 's':
+			c, _ := strconv.ParseUint(q[1:], 16, 64)
+			sub, err := readers[cur].SubScope(c)
+			if err != nil {
+				return strings.Join(append(parts, "ERR"), ",")
+			}
+			readers = append(readers, sub)
+			parents = append(parents, cur)
+			cur = len(readers) - 1
+			parts = append(parts, "sub")
+		case 'u':
+			cur = parents[cur]
+			parts = append(parts, "up")
+		case 'w':
+			c, _ := strconv.ParseUint(q[1:], 16, 64)
+			cur = int(c)
+			parts = append(parts, "sw")
+		case 'U':
+			child := readers[cur]
+			cur = parents[cur]
+			readers[cur].UpdateIndexFromScoped(child)
+			parts = append(parts, "up"+hx(readers[cur].Index()))
+		default:
+			c, _ := strconv.ParseUint(q[1:], 16, 64)
+			p := make([]byte, c)
+			if _, err := readers[cur].Read(p); err != nil {
+				return strings.Join(append(parts, "ERR"), ",")
+			}
+			parts = append(parts, hexBytes(p))
+		}
+	}
+	return strings.Join(parts, ",")
 }
